@@ -325,8 +325,6 @@ def insertion(ctx):
     import numpy as np
     stores = [s_ for s_ in ast.walk(sweep) if isinstance(s_, ast.Assign) and isinstance(s_.targets[0], ast.Subscript) and norm(s_.targets[0].value) in ('neighbors', 'newneighbors')]
     ctx.need(len(stores) >= 2, 'nlist: stores into the neighbour table not found')
-    mem = [c for c in calls_in(sweep) if norm(c.func) == 'dmag2_c']
-    ctx.need(len(mem) == 1, 'nlist: membership test (dmag2_c) not found')
 
     def chain(n_):
         out = []
@@ -495,6 +493,19 @@ def _configurations():
            ('thin cell along a direction that is not periodic: atoms at opposite faces are close only through an image that does not exist', [[3, 0, 0], [0, 3, 0], [0, 0, R(3, 2)]], [0, 0, 0], (True, True, False),
             [[R(1, 2), R(1, 2), R(1, 10)], [R(1, 2), R(1, 2), R(7, 5)], [R(1, 2), R(11, 10), R(1, 10)]], 1, 1, 1, 'quick'),
            ('forty-five atoms in one bin (the bin storage grows)', cube3, [0, 0, 0], (False, False, False), [[1 + R(i % 5, 5), 1 + R(2 * ((i // 5) % 3), 5), 1 + R(2 * (i // 15), 5)] for i in range(45)], 1, 2, 5, 'quick')]
+    # generated configurations (a fixed linear congruential sequence, so every run sees the same ones): all eight periodicity settings on a cubic and a tilted cell
+    state = [12345]
+
+    def nxt(m):
+        state[0] = (1103515245 * state[0] + 12345) % (2 ** 31)
+        return (state[0] >> 8) % m
+    import itertools
+    for ci, (cell, org) in enumerate(((cube3, [0, 0, 0]), (tilt, o2))):
+        for flags in itertools.product((True, False), repeat=3):
+            fr = [[R(nxt(24), 24), R(nxt(24), 24), R(nxt(24), 24)] for _ in range(10)]
+            fr = [f for i, f in enumerate(fr) if f not in fr[:i]]
+            gp = [list(np.array(org, dtype=object) + np.array(f, dtype=object).dot(np.array(cell, dtype=object))) for f in fr]
+            out.append(('generated configuration %d in the %s cell, periodic flags %s' % (len(out), 'cubic' if ci == 0 else 'tilted', flags), cell, org, flags, gp, R(5, 4) if nxt(2) else R(3, 4), 1 + nxt(3), 1 + nxt(3), 'thorough'))
     return out
 
 
@@ -572,7 +583,7 @@ def configurations(ctx):
                     bad.append('atom %d lists %s, its neighbours are %s' % (i, row, want[i]))
         ctx.ob('CONFIGURATIONS', loc, '%s (%d atoms, cutoff %s, storage %d+%d): every row is the count followed by the ascending list of exactly the other atoms whose periodic distance is below the cutoff'
                % (tag, natoms, cutoff, isize, dsize), not bad, '; '.join(bad[:4]), node=fn, key=tag)
-    ctx.floor('CONFIGURATIONS', n, 16 if ctx.tier != 'thorough' else 17)
+    ctx.floor('CONFIGURATIONS', n, 16 if ctx.tier != 'thorough' else 33)
 
 
 def neighborlist(ctx):
